@@ -31,6 +31,7 @@ type Case struct {
 	Side   string `json:"side"`   // "" (no fault) | src | dst
 	Fn     int    `json:"fn,omitempty"`
 	K      int    `json:"k,omitempty"`
+	Pre    bool   `json:"pre,omitempty"` // the destination already exists (longer, other content, mode 0600)
 }
 
 var fsKinds = []string{"MemFS", "OrefaFS", "OsFS", "BasePathFS(MemFS)"}
@@ -140,6 +141,17 @@ func run(c *vt.Ctx, cs Case, scratch string) (dev *vt.Deviation, srcCounts, dstC
 	if err := srcBase.Chmod(srcPath, perm); err != nil {
 		c.Inconclusive("setup: " + err.Error())
 		return
+	}
+	if cs.Pre && cs.Func != "HashFile" {
+		old := append([]byte("previous content "), content(cs.Size+13)...)
+		if err := dstBase.WriteFile(dstPath, old, 0o600); err != nil {
+			c.Inconclusive("setup: " + err.Error())
+			return
+		}
+		if err := dstBase.Chmod(dstPath, 0o600); err != nil {
+			c.Inconclusive("setup: " + err.Error())
+			return
+		}
 	}
 	sc := &countFn{counts: map[avfs.FnVFS]int{}}
 	dc := &countFn{counts: map[avfs.FnVFS]int{}}
@@ -265,10 +277,11 @@ func TestCheck(t *testing.T) {
 		return
 	}
 	sizes := []int{0, 1, 32767, 32768, 32769, 65536, 65537, 100000}
-	perms := []uint32{0o600, 0o644, 0o755, 0o400}
+	// permission bits: some that the umask (022) would clear on creation, some it would not
+	perms := []uint32{0o600, 0o644, 0o755, 0o400, 0o666, 0o777, 0o620, 0o602, 0o200}
 	hashers := []string{"nil", "sha256", "fnv64"}
 	if !c.Thorough() {
-		perms = []uint32{0o644, 0o400}
+		perms = []uint32{0o644, 0o400, 0o666, 0o730}
 	}
 	idx, plans := 0, 0
 	for _, src := range fsKinds {
@@ -284,7 +297,9 @@ func TestCheck(t *testing.T) {
 							if idx%c.NShards != c.Shard {
 								continue
 							}
+							// every other case starts with an existing destination
 							base := Case{Func: fn, Src: src, Dst: dst, Size: size, Perm: perm, Hasher: hs}
+							base.Pre = fn != "HashFile" && vt.Hash64(fmt.Sprintf("%+v", base))%2 == 0
 							dev, sc, dc, _, _ := run(c, base, scratch)
 							plans++
 							if dev != nil {
